@@ -444,6 +444,7 @@ pub const CLASSINGS: &[(&str, usize)] = &[
     ("zeroed", 2),
     ("zeroslot", 1),
     ("zeroslot0", 1),
+    ("uneven", 1),
     ("custom", 1),
     ("single", 1),
 ];
@@ -726,6 +727,20 @@ pub fn script_runs(out: &mut Out, path: &str) {
             }
             // macro letter: fragment a tree (one base frame allocated in every row), so that its counter
             // stays high while no block of order >= 6 is free
+            if l[0] == "twin" {
+                // C07: hand the metadata over to a second allocator (Init::None over byte copies) right here
+                if h.twin.is_none() {
+                    let mut t = h.w.fork("none");
+                    if t.alloc.is_some() {
+                        t.last = h.w.last.clone();
+                        h.twin = Some(t);
+                        h.twin_age = 0;
+                    } else {
+                        h.out.push(json!({"ev":"reinit","init":"none","ierr": t.init_err.clone().unwrap_or_default(),"obs":{}}));
+                    }
+                }
+                continue;
+            }
             if l[0] == "frag" {
                 let t = sym(&l[1]);
                 for r in 0..(TF / 64) {
